@@ -245,7 +245,12 @@ Init == /\ inner = Fresh
 \* ---------------------------------------------------------------- clients
 FirstPc(call) == IF AlwaysQueued(call) THEN "enq" ELSE IF Routed(call) THEN "route" ELSE "drain"
 
-Invoke(c, call) ==
+\* A call names its multipart upload by the id it was given: the number u stands for the u-th upload
+\* created IF that upload has been created when the call starts, and for an id no upload ever has otherwise.
+NeverU == 99
+BindUpload(St, call) == IF call.u > 0 /\ call.u >= St.nu THEN [call EXCEPT !.u = NeverU] ELSE call
+Invoke(c, rawcall) ==
+  LET call == BindUpload(inner, rawcall) IN
   /\ cl[c].pc = "idle" /\ cnt.ops < MaxOps
   /\ cl' = [cl EXCEPT ![c] = [IdleRec EXCEPT !.pc = FirstPc(call), !.call = call, !.must = Len(accepted),
                                              !.base = IF IsRead(call) THEN virt ELSE <<>>,
